@@ -9,6 +9,8 @@ _CANON = {"std::cell::RefCell::take": "std::mem::take", "std::cell::RefCell::rep
 USER_CODE = ("bincode::serialize_into", "bincode::serialize", "bincode::deserialize", "bincode::deserialize_from",
              "bincode::serialized_size", "serde::Serialize::serialize", "serde::Deserialize::deserialize")
 SIDE_ELEMS = ("OsIpcChannel", "OsIpcSharedMemory", "OsOpaqueIpcChannel")
+TABLE_MUTATORS = ("std::vec::Vec::clear", "std::vec::Vec::truncate", "std::vec::Vec::append", "std::vec::Vec::extend", "std::iter::Extend::extend", "std::vec::Vec::extend_from_slice",
+                  "std::vec::Vec::drain", "std::vec::Vec::push", "std::vec::Vec::insert", "std::vec::Vec::retain", "std::vec::Vec::split_off")
 
 
 def side_table_exchange(t):
@@ -31,6 +33,8 @@ def cell_key(fn, tr, operand):
     l = op_local(operand)
     if l is not None and "RefCell<" in fn.local_ty(l):
         is_table = True      # RefCell::take / replace / swap operate on the table cell itself
+    if operand.get("k") == "c" and str(operand.get("static", "")).startswith("tls:"):
+        is_table = True      # `KEY.with(RefCell::take)`: applied to the thread-local cell directly
     return (r.kind, r.id, r.field_idx()), is_table
 
 
@@ -42,18 +46,41 @@ def rule_tls_restore(ctx, cfg, F):
     n_user = 0
     for f in sorted(F.fns.values(), key=lambda x: x.path):
         sites = [(b, t) for b, t in f.calls() if side_table_exchange(t)]
-        if not sites:
+        user_blocks = [b for b, t in f.calls() if strip_generics(callee_name(t)) in USER_CODE or strip_generics(t.get("callee") or "") in USER_CODE]
+        # a message-level function (it runs the serializer / decoder) that writes a table in place instead of exchanging it
+        inplace = []
+        if user_blocks and not f.impl_trait:
+            tr0 = Tracer(f)
+            for b, t in f.calls():
+                nm = strip_generics(callee_name(t))
+                if nm in TABLE_MUTATORS and t["args"] and "Vec<" in " ".join(t.get("generics", [])) + f.local_ty(op_local(t["args"][0]) or 0) and \
+                        any(e in " ".join(t.get("generics", [])) + f.local_ty(op_local(t["args"][0]) or 0) for e in SIDE_ELEMS):
+                    k, is_t = cell_key(f, tr0, t["args"][0])
+                    if k and is_t:
+                        inplace.append((b, nm, k))
+            for b in f.live_blocks():
+                for st in f.stmts(b):
+                    if st["s"] == "assign" and st["lhs"].get("p") == ["*"] and "Vec<" in f.local_ty(st["lhs"]["l"]) and any(e in f.local_ty(st["lhs"]["l"]) for e in SIDE_ELEMS):
+                        k, is_t = cell_key(f, tr0, {"k": "cp", "pl": {"l": st["lhs"]["l"]}})
+                        if k and is_t:
+                            inplace.append((b, "store", k))
+        if not sites and not inplace:
             continue
-        n_sites += len(sites)
+        n_sites += len(sites) + len(inplace)
         tr = Tracer(f)
         ex = Explorer(f)
         tables = {}
+        for b, nm, k in inplace:
+            tables[k] = True
+        mut_at = {}
+        for b, nm, k in inplace:
+            if nm != "store":
+                mut_at[b] = (nm, k)
         for b, t in sites:
             for a in t["args"][:2 if side_table_exchange(t) == "std::mem::swap" else 1]:
                 k, is_t = cell_key(f, tr, a)
                 if k and is_t:
                     tables[k] = True
-        user_blocks = [b for b, t in f.calls() if strip_generics(callee_name(t)) in USER_CODE or strip_generics(t.get("callee") or "") in USER_CODE]
         n_user += len(user_blocks)
         fresh = [0]
         problems = {}
@@ -69,18 +96,73 @@ def rule_tls_restore(ctx, cfg, F):
         def lkey(l):
             return ("L", l, ())
 
-        def operand_cell(a):
+        def local_cell(a, depth=0):
+            """`&mut s.field` / `&mut (*r).field` with r = &mut s  ->  ("L", s, (field index, ..)); None if not a field of a local"""
             l = op_local(a)
+            path = ()
+            for _ in range(8):
+                if l is None:
+                    return None
+                ds = [d for d in f.defs().get(l, []) if not f.is_cleanup(d[0]) and not (d[1] is not None and d[2]["lhs"].get("p"))]
+                if len(ds) != 1 or ds[0][1] is None:
+                    break
+                rv = ds[0][2]["rv"]
+                if rv["r"] in ("ref", "raw"):
+                    pl = rv["pl"]
+                    path = tuple(e["f"] for e in pl.get("p", []) if isinstance(e, dict) and "f" in e) + path
+                    l = pl["l"]
+                    continue
+                if rv["r"] in ("use", "cast") and op_place(rv["a"][0]) is not None:
+                    pl = rv["a"][0]["pl"]
+                    path = tuple(e["f"] for e in pl.get("p", []) if isinstance(e, dict) and "f" in e) + path
+                    l = pl["l"]
+                    continue
+                if rv["r"] == "agg" and path and path[0] < len(rv["a"]) and op_place(rv["a"][path[0]]) is not None and ("closure" in rv["kind"] or "tuple" in rv["kind"]):
+                    # a captured reference inside a closure environment / tuple: continue with the captured value
+                    pl = rv["a"][path[0]]["pl"]
+                    path = tuple(e["f"] for e in pl.get("p", []) if isinstance(e, dict) and "f" in e) + path[1:]
+                    l = pl["l"]
+                    continue
+                break
+            if l is None or f.local_ty(l).startswith("&"):
+                return None
+            return ("L", l, path)
+
+        def operand_cell(a):
             k, is_t = cell_key(f, tr, a)
+            if not is_t:
+                lc = local_cell(a)
+                if lc is not None:
+                    return lc
             return k
 
         def step(b, state, env):
             # local moves of Vec values
             for st in f.stmts(b):
-                if st["s"] == "assign" and not st["lhs"].get("p") and st["rv"]["r"] == "use":
-                    src = op_local(st["rv"]["a"][0])
-                    if src is not None and lkey(src) in dict(state):
-                        state = setv(state, lkey(st["lhs"]["l"]), val(state, lkey(src)))
+                if st["s"] != "assign":
+                    continue
+                d = dict(state)
+                if not st["lhs"].get("p") and st["rv"]["r"] == "use":
+                    sp = op_place(st["rv"]["a"][0])
+                    if sp is not None:
+                        spath = tuple(e["f"] for e in sp.get("p", []) if isinstance(e, dict) and "f" in e)
+                        # whole value (and, for a struct, its tracked fields) moves to the destination
+                        for k, v in list(d.items()):
+                            if k[0] == "L" and k[1] == sp["l"] and k[2][:len(spath)] == spath:
+                                state = setv(state, ("L", st["lhs"]["l"], k[2][len(spath):]), v)
+                elif not st["lhs"].get("p") and st["rv"]["r"] == "agg":
+                    # a struct built from tracked lists keeps them in its fields (an RAII scope holding the saved lists)
+                    for i, a in enumerate(st["rv"]["a"]):
+                        src = op_local(a)
+                        if src is not None and lkey(src) in d and not a["pl"].get("p"):
+                            state = setv(state, ("L", st["lhs"]["l"], (i,)), d[lkey(src)])
+                elif st["lhs"].get("p") == ["*"] and st["rv"]["r"] == "use":
+                    # `*table.borrow_mut() = list`
+                    k, is_t = cell_key(f, tr, {"k": "cp", "pl": {"l": st["lhs"]["l"]}})
+                    if k and is_t:
+                        src = op_local(st["rv"]["a"][0])
+                        tables[k] = True
+                        state = setv(state, k, d[lkey(src)] if src is not None and lkey(src) in d else ("O", "store@bb%d" % b))
             t = f.term(b)
             if t["t"] == "call":
                 name = side_table_exchange(t)
@@ -101,6 +183,12 @@ def rule_tls_restore(ctx, cfg, F):
                     if k1 and k2:
                         v1, v2 = val(state, k1), val(state, k2)
                         state = setv(setv(state, k1, v2), k2, v1)
+                elif b in mut_at:
+                    nm, k = mut_at[b]
+                    if nm in ("std::vec::Vec::clear",) or (nm == "std::vec::Vec::truncate"):
+                        state = setv(state, k, ("EMPTY",))
+                    else:
+                        state = setv(state, k, ("O", "%s@bb%d" % (nm.split("::")[-1], b)))
                 elif b in user_blocks:
                     for k in tables:
                         v = val(state, k)
